@@ -1338,6 +1338,9 @@ func part2(run *vlib.Run, bt *built) bool {
 	shp, shd := shadowPrograms(run.Thorough())
 	progs = append(progs, shp...)
 	planDescr = append(planDescr, shd...)
+	cop, cod := constantPrograms(run.Thorough())
+	progs = append(progs, cop...)
+	planDescr = append(planDescr, cod...)
 	for _, pl := range semPlans(run.Thorough()) {
 		en := newEnumerator(pl.Alpha)
 		for _, n := range pl.Sizes {
